@@ -44,6 +44,9 @@ func init() {
 			{ID: "R01v", Floor: 1, Doc: "the index decoders accept every multihash code the encoders write: package index consults no registry of hash functions (= R11v)", Run: ruleR11v},
 			{ID: "R01w", Floor: 1, Doc: "the storage constructors keep the caller's root list itself (a copy turns nil into an empty list, which the header encodes differently): all writers emit the same header bytes for the same roots", Run: ruleR01w},
 			{ID: "R01x", Floor: 1, Doc: "a resumed store finds every block that is in the file: the rescan indexes every section it passes (= R12c)", Run: ruleR12c},
+			{ID: "R01y", Floor: 3, Doc: "headers and sections are read completely also from readers that deliver in pieces (= R02q)", Run: ruleR02q},
+			{ID: "R01z", Floor: 1, Doc: "the readers that load the embedded index find it where the header says (Header.IndexOffset), index padding included (= R10d)", Run: ruleR10d},
+			{ID: "R01A", Floor: 1, Doc: "Reader.Roots returns the decoded root list on every call (= R07m)", Run: ruleR07m},
 		},
 	})
 }
@@ -290,7 +293,7 @@ func ruleR01b(c *Ctx, r *Report) {
 						bad = "the buffer is sized by something other than the section's decoded length"
 					} else if !sameValue(stripIface(lc.Call.Args[0]), stripIface(rf[0].Common().Args[0])) {
 						bad = "the body is read from a different reader than the length"
-					} else if canon(rf[0].Common().Args[1]) != ssa.Value(mk) {
+					} else if wholeSliceOf(canon(rf[0].Common().Args[1])) != ssa.Value(mk) {
 						bad = "io.ReadFull does not fill the buffer that was sized by the length"
 					}
 				}
@@ -598,4 +601,16 @@ func ruleR01m(c *Ctx, r *Report) {
 		})
 	}
 	r.Count("Pool.Put of an object held in a struct field", n)
+}
+
+// wholeSliceOf sees through `b[:]` (no bounds): the slice is the same bytes.
+func wholeSliceOf(v ssa.Value) ssa.Value {
+	for i := 0; i < 4; i++ {
+		sl, ok := v.(*ssa.Slice)
+		if !ok || sl.Low != nil || sl.High != nil || sl.Max != nil {
+			return v
+		}
+		v = canon(sl.X)
+	}
+	return v
 }
